@@ -114,4 +114,40 @@ example : (runSched oneU w1 (Sys.start (doBuildXsi oneU w1 State.init) [.findTyp
     (raceSchedule ++ [1])).results = [some (.gotTypes [0]), some (.gotTypes [0])] := by
   decide
 
+
+/-- **no thread ever blocks or loops**: whatever the shared state looks like
+(i.e. whatever the other threads did), each step of an unfinished thread strictly
+decreases the number of shared operations it still has to perform; so under any
+fair schedule every call returns. -/
+theorem thread_progress (U : Universe) (w : World) (s : State) (st : TState) (h : st.isDone = false) :
+    ((stepT U w s st).2).remaining (indexEntries U w.loaded).length
+      < st.remaining (indexEntries U w.loaded).length := by
+  cases st with
+  | bCheck c p =>
+    simp only [stepT]
+    split
+    · simp [TState.remaining]
+    · split <;> simp [TState.remaining]
+  | bWrite c m => simp [stepT, TState.remaining]
+  | bRead c => simp only [stepT]; split <;> simp [TState.remaining]
+  | xCheck q => simp only [stepT]; split <;> simp [TState.remaining]
+  | xClear q =>
+    simp only [stepT, afterFill]
+    split
+    · simp [TState.remaining]
+    · simp [TState.remaining]
+  | xFill q todo =>
+    cases todo with
+    | nil => simp [stepT, TState.remaining]
+    | cons e rest =>
+      obtain ⟨k, c0⟩ := e
+      simp only [stepT, afterFill]
+      split
+      · simp [TState.remaining]
+      · simp [TState.remaining]
+  | xStamp q => simp [stepT, TState.remaining]
+  | xContains q => simp only [stepT]; split <;> simp [TState.remaining]
+  | xGet q => simp only [stepT]; split <;> simp [TState.remaining]
+  | done o => simp [TState.isDone] at h
+
 end Props.C19
